@@ -15,7 +15,7 @@ func init() {
 	register(&propDef{
 		ID:      "C07",
 		Level:   "other",
-		Explain: "HTTP pass-through conditions decided on the region of proxy.HTTPProxy.ServeHTTP (the method, the helpers of package proxy it calls and their closures), the Director(s) and the response-writer wrappers; sites are found by what they do, not by the function that contains them today: (G1) every upstream-contact site lies, on every path, behind the target != nil edge of the route lookup (the test may live in a helper that returns the target or a verdict); (N1) where the looked-up target is known to be nil, WriteHeader gets a status whose only sources are Config.NoRouteStatus and the constant 404, and the noroute page is written on the same edge; (D1) every function stored into a ReverseProxy.Director (closure, named function, bound method) stores only to req.URL.{Scheme,Host,Path,RawPath,RawQuery} and touches no header but User-Agent, and FlushInterval is what the caller chose among the configured flush intervals; (H1) every Set/Add/Del/index-store on a request's header map reachable from ServeHTTP (also through a helper that takes the map or the key as a parameter) uses a key all of whose possible values are in the managed set (the forwarding headers, User-Agent, and the configured request-id / client-ip / TLS header names), and nothing stores to the request's Method, Body, Proto, ContentLength or TransferEncoding; (H2) every store to r.Host lies, on every path, behind a branch decided by Target.Host; (U1) on the URL that the Director copies into the outgoing request (all of its aliases across helpers): every strip / prepend of Path has a like operation on RawPath, RawPath starts from the client's RawPath, and every Director that copies Path copies RawPath; (U2) every stripped or prepended Path and RawPath is absolute by construction or passes, on every path before the URL is handed to the Director or installed in the request, an absolute-path normalisation of that field (HasPrefix(x, \"/\") true, \"/\"+x, for RawPath also empty); (Q1) every value stored to the URL's RawQuery is, in each of its alternatives, <route query>[&]<request query> with the separator exactly when both are known to be non-empty and nothing else mixed in; (W1) every wrapper implementing http.ResponseWriter forwards Header/Write/WriteHeader arguments unchanged on every path and returns the wrapped results. Not decided: body bytes, chunking and hop-by-hop header handling (delegated to net/http/httputil.ReverseProxy).",
+		Explain: "HTTP pass-through conditions decided on the region of proxy.HTTPProxy.ServeHTTP (the method, the helpers of package proxy it calls and their closures), the Director(s) and the response-writer wrappers; sites are found by what they do, not by the function that contains them today: (G1) every upstream-contact site lies, on every path, behind the target != nil edge of the route lookup (the test may live in a helper that returns the target or a verdict); (N1) where the looked-up target is known to be nil, WriteHeader gets a status whose only sources are Config.NoRouteStatus and the constant 404, and the noroute page is written on the same edge; (D1) every function stored into a ReverseProxy.Director (closure, named function, bound method) stores only to req.URL.{Scheme,Host,Path,RawPath,RawQuery} and touches no header but User-Agent, and FlushInterval is what the caller chose among the configured flush intervals; (H1) every Set/Add/Del/index-store on a request's header map reachable from ServeHTTP (also through a helper that takes the map or the key as a parameter) uses a key all of whose possible values are in the managed set (the forwarding headers, User-Agent, and the configured request-id / client-ip / TLS header names), and nothing stores to the request's Method, Body, Proto, ContentLength or TransferEncoding; (H2) every store to r.Host lies, on every path, behind a branch decided by Target.Host; (U1) on the URL that the Director copies into the outgoing request (all of its aliases across helpers): every strip / prepend of Path has a like operation on RawPath, RawPath starts from the client's RawPath, and every Director that copies Path copies RawPath; (U2) every stripped or prepended Path and RawPath is absolute by construction or passes, on every path before the URL is handed to the Director or installed in the request, an absolute-path normalisation of that field (HasPrefix(x, \"/\") true, \"/\"+x, for RawPath also empty); (Q1) every value stored to the URL's RawQuery is, in each of its alternatives, <route query>[&]<request query> with the separator exactly when both are known to be non-empty and nothing else mixed in; (W1) every wrapper implementing http.ResponseWriter forwards Header/Write/WriteHeader arguments unchanged on every path and returns the wrapped results. Where a rule asks for the sources of a value, a read of a field of a repository struct outside config/route (a per-request or per-upstream carrier such as upstream{target, tr, flush}) stands for everything stored to that field, an element of a slice/array literal or a package-level basic variable for its entries, and a function kept in such a field or passed as a method value for the functions it can denote; (H2) additionally requires that a direct comparison deciding the Host rewrite leaves the option non-empty; (W1) the forwarding call may sit in a helper method the wrapper method delegates to. Not decided: body bytes, chunking and hop-by-hop header handling (delegated to net/http/httputil.ReverseProxy).",
 		Run:     runC07,
 		Trusted: []string{"net/http/httputil.ReverseProxy copies method, body and end-to-end headers unchanged and removes hop-by-hop headers", "url.URL.EscapedPath uses RawPath only when it is a valid encoding of Path"},
 		Mutants: []mutant{
@@ -50,6 +50,7 @@ func runC07(c *Ctx) {
 	if !c.need("C07.G1", serve, "proxy.HTTPProxy.ServeHTTP") {
 		return
 	}
+	c07buildFields(c.AllFns)
 	runC07G1(c, serve)
 	runC07N1(c, serve)
 	directors := runC07D1(c)
@@ -89,7 +90,7 @@ func runC07N1(c *Ctx, serve *ssa.Function) {
 			return false
 		}
 		for _, a := range jc.Args {
-			if derives(a, func(v ssa.Value) bool { _, ok := isCallTo(v, repoMod+"/noroute.GetHTML"); return ok }) {
+			if c07comesFrom(a, func(v ssa.Value) bool { _, ok := isCallTo(v, repoMod+"/noroute.GetHTML"); return ok }) {
 				return true
 			}
 		}
@@ -143,13 +144,43 @@ func runC07N1(c *Ctx, serve *ssa.Function) {
 func runC07D1(c *Ctx) []*ssa.Function {
 	var directors []*ssa.Function
 	n := 0
-	for _, f := range c07proxyFns(c) {
+	fns := c07proxyFns(c)
+	// a reverse proxy that is built by one function and completed by another (`rp := newReverseProxy(tr);
+	// rp.Director = u.direct`): the stores to a field of a ReverseProxy that is not allocated where the store is
+	late := map[string][]*ssa.Store{}
+	eachInstrOf(fns, func(_ *ssa.Function, i ssa.Instruction) {
+		if st, ok := i.(*ssa.Store); ok {
+			if fa, ok := st.Addr.(*ssa.FieldAddr); ok && namedIs(fa.X.Type(), "httputil.ReverseProxy") {
+				if _, local := fa.X.(*ssa.Alloc); !local {
+					fname := fieldName(fa.X.Type(), fa.Field)
+					late[fname] = append(late[fname], st)
+				}
+			}
+		}
+	})
+	storesOf := func(a *ssa.Alloc, fs map[string][]*ssa.Store, field string) []*ssa.Store {
+		if len(fs[field]) > 0 {
+			return fs[field]
+		}
+		var out []*ssa.Store
+		for _, st := range late[field] {
+			for _, l := range c07leaves(st.Addr.(*ssa.FieldAddr).X) {
+				if l == ssa.Value(a) {
+					out = append(out, st)
+					break
+				}
+			}
+		}
+		return out
+	}
+	for _, f := range fns {
 		for _, a := range allocsOf(f, "httputil.ReverseProxy") {
 			n++
 			fs := fieldStores(a)
-			// FlushInterval: what the caller chose (a parameter), i.e. one of the configured flush intervals
+			// FlushInterval: what the caller chose (a parameter), i.e. one of the configured flush intervals; the value may
+			// have travelled through a field of a struct (c07_fields.go)
 			okFlush := false
-			for _, st := range fs["FlushInterval"] {
+			for _, st := range storesOf(a, fs, "FlushInterval") {
 				ls, complete := c07leavesAll(st.Val)
 				okFlush = len(ls) > 0 && complete
 				for _, l := range ls {
@@ -160,11 +191,14 @@ func runC07D1(c *Ctx) []*ssa.Function {
 						okFlush = false
 					}
 				}
+				if !okFlush {
+					break
+				}
 			}
 			c.check("C07.D1", fnKey(f)+"|ReverseProxy.FlushInterval from the parameter", a.Pos(), okFlush, "the flush interval chosen by ServeHTTP (SSE vs. global) must reach the reverse proxy")
 			nd := 0
-			for _, st := range fs["Director"] {
-				ds := funcsOf(st.Val)
+			for _, st := range storesOf(a, fs, "Director") {
+				ds := c07funcsOf(st.Val)
 				if len(ds) == 0 {
 					c.check("C07.D1", fnKey(f)+"|Director", st.Pos(), false, "the Director must be a function of this repository whose body can be inspected")
 					continue
@@ -200,15 +234,12 @@ func c07checkDirector(c *Ctx, d *ssa.Function) {
 			k, _ := constString(mu.Key)
 			c.check("C07.D1", fnKey(d)+"|Header["+k+"] =", i.Pos(), c07canonical(k) == "User-Agent", "the Director may only pin User-Agent; every other header is the client's")
 		}
-		cc := callCommon(i)
-		if cc == nil {
-			return
-		}
-		for _, m := range []string{"Set", "Add", "Del"} {
-			if calleeName(cc) != "(net/http.Header)."+m || len(cc.Args) < 2 {
-				continue
+		if m, _, key, isOp := c07headerOp(i); isOp {
+			if key == nil {
+				c.check("C07.D1", fnKey(d)+"|"+m+" on a header map", i.Pos(), false, "the Director may only pin User-Agent; a bulk change of a header map drops or replaces the client's headers")
+				return
 			}
-			ls, ok := c07leavesAll(cc.Args[1])
+			ls, ok := c07leavesAll(key)
 			what := ""
 			for _, l := range ls {
 				k, isK := constString(l)
@@ -235,10 +266,13 @@ func c07isRequestHeader(v ssa.Value) bool {
 	if isRequestHeader(v) {
 		return true
 	}
-	if typeStr(v.Type()) != "net/http.Header" {
+	if t := typeStr(v.Type()); t != "net/http.Header" && t != "net/textproto.MIMEHeader" {
 		return false
 	}
 	for _, l := range c07leaves(v) {
+		if ct, ok := l.(*ssa.ChangeType); ok {
+			l = ct.X
+		}
 		if isRequestHeader(l) {
 			return true
 		}
@@ -255,6 +289,15 @@ func c07managedKey(key ssa.Value) (bool, string) {
 		return false, shortPath(key)
 	}
 	for _, l := range ls {
+		// a key that is canonicalised first: the name is what goes in
+		if call, isCanon := isCallTo(l, "net/http.CanonicalHeaderKey", "net/textproto.CanonicalMIMEHeaderKey"); isCanon && len(call.Call.Args) == 1 {
+			if ok2, what2 := c07managedKey(call.Call.Args[0]); !ok2 {
+				return false, what2
+			} else {
+				what = what2
+			}
+			continue
+		}
 		if k, isK := constString(l); isK {
 			what = k
 			if !managedRequestHeaders[c07canonical(k)] {
@@ -296,14 +339,15 @@ func runC07H(c *Ctx, serve *ssa.Function) {
 	sort.Slice(fns, func(i, j int) bool { return fns[i].String() < fns[j].String() })
 	nH := 0
 	eachInstrOf(fns, func(f *ssa.Function, i ssa.Instruction) {
-		// header method calls on the request's header
-		if cc := callCommon(i); cc != nil && len(cc.Args) >= 2 {
-			for _, m := range []string{"Set", "Add", "Del"} {
-				if calleeName(cc) != "(net/http.Header)."+m || !c07isRequestHeader(cc.Args[0]) {
-					continue
-				}
-				nH++
-				ok, what := c07managedKey(cc.Args[1])
+		// header method calls on the request's header (also as a method value `set := r.Header.Set`, through
+		// textproto.MIMEHeader, delete / clear / maps.Copy)
+		if m, hdr, key, isOp := c07headerOp(i); isOp && c07isRequestHeader(hdr) {
+			nH++
+			if key == nil {
+				c.check("C07.H1", fnKey(f)+"|request header "+m, i.Pos(), false,
+					"a bulk change of the request's header map ("+m+") drops or replaces end-to-end headers of the client")
+			} else {
+				ok, what := c07managedKey(key)
 				c.check("C07.H1", fnKey(f)+"|request Header."+m+"("+what+")", i.Pos(), ok,
 					"only the forwarding headers fabio manages may be changed on the request; any other end-to-end header of the client must reach the upstream unchanged")
 			}
@@ -345,11 +389,34 @@ func runC07H(c *Ctx, serve *ssa.Function) {
 		}
 		nHost++
 		// on every path to the store some branch was decided by the route's host option
-		dep := c07holdsBlock(st.Block(), func(ft Fact) bool { return derives(ft.Cond, isHostOpt) }, map[*ssa.BasicBlock]bool{})
+		dep := c07holdsBlock(st.Block(), func(ft Fact) bool { return c07hostOptSet(ft, isHostOpt) }, map[*ssa.BasicBlock]bool{})
 		c.check("C07.H2", fnKey(f)+"|r.Host rewritten only when the route asks for it", st.Pos(), dep,
 			"the Host header may be replaced only under a test of the route's host option (host=dst / host=<name>); otherwise the upstream must see the Host the client sent")
 	})
 	c.atLeast("C07.H2", "stores to r.Host", nHost, 1)
+}
+
+// c07hostOptSet: the branch fact was decided by the route's host option and does not say that the option is unset:
+// a direct comparison of the option with a constant must leave it non-empty (`== "dst"` true, `!= ""` true, `== ""`
+// false, `len(..) > 0`); an opaque verdict computed from the option (a helper's `ok`) is taken as it is.
+func c07hostOptSet(ft Fact, isHostOpt func(ssa.Value) bool) bool {
+	if !c07comesFrom(ft.Cond, isHostOpt) {
+		return false
+	}
+	if v, empty, ok := c07emptyFact(ft); ok && c07comesFrom(v, isHostOpt) {
+		return !empty
+	}
+	if b, ok := ft.Cond.(*ssa.BinOp); ok && (b.Op == token.EQL || b.Op == token.NEQ) {
+		x, y := b.X, b.Y
+		if _, isK := x.(*ssa.Const); isK {
+			x, y = y, x
+		}
+		if _, isK := constString(y); isK && isStringType(x.Type()) {
+			// compared with a non-empty constant (the empty one was handled above): only equality tells that it is set
+			return (b.Op == token.EQL) == ft.Truth
+		}
+	}
+	return true
 }
 
 // runC07U: U1, U2 and Q1 on the URL the Director copies into the outgoing request.
@@ -401,7 +468,9 @@ func runC07W1(c *Ctx) {
 					continue // promoted from the embedded writer
 				}
 				fwd := false
-				eachInstr(f, func(i ssa.Instruction) {
+				// the forwarding call may sit in the method itself or in a helper / another method of the wrapper that it
+				// delegates to (`func (rw *responseWriter) WriteHeader(code int) { rw.record(code) }`)
+				eachInstrOf(c.region(f), func(g *ssa.Function, i ssa.Instruction) {
 					cc := callCommon(i)
 					if cc == nil || !cc.IsInvoke() || cc.Method.Name() != mn {
 						return
@@ -412,8 +481,13 @@ func runC07W1(c *Ctx) {
 					// all arguments are the method's own parameters, in order
 					same := len(cc.Args) == len(f.Params)-1
 					for k := range cc.Args {
-						if !same || !c07sameParam(cc.Args[k], f.Params[k+1]) {
-							same = false
+						if !same {
+							break
+						}
+						if g == f {
+							same = c07sameParam(cc.Args[k], f.Params[k+1])
+						} else {
+							same = c07onlyParam(cc.Args[k], f.Params[k+1])
 						}
 					}
 					if same {
@@ -453,6 +527,21 @@ func c07holdsCompressor(st *types.Struct) bool {
 		}
 	}
 	return false
+}
+
+// c07onlyParam: every value the argument of a forwarding call inside a helper can take is the parameter p of the
+// wrapper's method (the helper's own parameter stands for what its callers pass).
+func c07onlyParam(arg ssa.Value, p *ssa.Parameter) bool {
+	ls, complete := c07leavesAll(arg)
+	if !complete || len(ls) == 0 {
+		return false
+	}
+	for _, l := range ls {
+		if !c07sameParam(l, p) {
+			return false
+		}
+	}
+	return true
 }
 
 // c07sameParam: arg is the parameter itself, or a load of the local cell the parameter was spilled into (a parameter
